@@ -148,6 +148,22 @@ class ImexDiagProb(Problem):
         return u
 
 
+class MassDiagProb(ImexDiagProb):
+    """ImexDiagProb with a diagonal mass matrix: (mass - factor*lamI) u = rhs + factor*cI*t  (imex_1st_order_mass)."""
+    fix_bc_for_residual = False
+
+    def __init__(self, lamI, cI, lamE, muE, cE, mass):
+        super().__init__(lamI, cI, lamE, muE, cE)
+        self.mass = [F(x) for x in mass]
+
+    def apply_mass_matrix(self, u):
+        return FracVec([a * b for a, b in zip(self.mass, u.v)])
+
+    def solve_system(self, rhs, factor, u0, t):
+        t, factor = F(t), F(factor)
+        return FracVec([(r + factor * c * t) / (m_ - factor * l) for r, l, c, m_ in zip(rhs.v, self.lamI, self.cI, self.mass)])
+
+
 class MultiDiagProb(Problem):
     """multi_implicit: comp1 = lam1*u + c1*t, comp2 = lam2*u + c2*t, two exact solves."""
     dtype_u = FracVec
